@@ -10,7 +10,8 @@
 //!    mask seed changes the mask of every cell.
 //!  * conformance: the error of every cell, extracted exactly with the clear key against the plaintext the routine's
 //!    definition prescribes, is an integer at the declared limb, within the truncation bound, not identically zero;
-//!    mask digits and body digits lie in [-2^(b-1), 2^(b-1)); for GLWE / LWE forms (no ordering freedom) mask and
+//!    mask digits and body digits lie in [-2^(b-1), 2^(b-1)); no mask column repeats inside one object (across cells, rows,
+//!    columns, entries of composite keys, or inside a cell); for GLWE / LWE forms (no ordering freedom) mask and
 //!    error are *equal* to the sampler model R8 run on the same seeds.
 //!  * an AGGREGATE two-sided band test over the enumerated executions (fixed seeds -> a constant of the code): pooled
 //!    error variance and mean per routine, chi-square of mask digit frequencies for radices <= 4.
@@ -281,6 +282,38 @@ where
             }
             rec.outcome(hash_i64s(&cell.body));
         }
+        // no mask column may repeat inside one object: neither between two different cells (row, column, entry of a composite
+        // key) nor inside a cell.  Demanded when a column carries >= 64 bits (n * size * b), so that an accidental
+        // collision among the few hundred columns of an object has probability < 2^-48.
+        if sh.n * size * sh.b >= 64 {
+            let mut seen_cols: std::collections::HashMap<u64, (usize, usize)> = std::collections::HashMap::new();
+            'outer: for (ci, cell) in o.cells.iter().enumerate() {
+                if cell.mask_cols == 0 {
+                    continue;
+                }
+                let len = cell.mask.len() / cell.mask_cols;
+                for mc in 0..cell.mask_cols {
+                    let col = &cell.mask[mc * len..(mc + 1) * len];
+                    let h = hash_i64s(col);
+                    if let Some(&(cj, mj)) = seen_cols.get(&h) {
+                        let other = &o.cells[cj];
+                        let olen = other.mask.len() / other.mask_cols;
+                        if &other.mask[mj * olen..(mj + 1) * olen] == col {
+                            fail(
+                                rec,
+                                "mask_repeated_across_cells",
+                                json!({"seed": seed}),
+                                json!({"routine": r.name(), "same_cell": ci == cj,
+                                       "cell_a": {"key": other.key, "row": other.row, "col": other.col, "mask_column": mj + 1},
+                                       "cell_b": {"key": cell.key, "row": cell.row, "col": cell.col, "mask_column": mc + 1}}),
+                            );
+                            break 'outer;
+                        }
+                    }
+                    seen_cols.insert(h, (ci, mc));
+                }
+            }
+        }
         // the default configuration (sigma 3.2) leaves an all-zero error vector of >= 8 coefficients with probability < 6e-8
         // (k >= 8: a non-zero error within the bound cannot vanish modulo 1)
         if sh.noise == 0 && all_zero && ncoeff >= 8 && noise.k >= 8 {
@@ -548,7 +581,7 @@ where
     let name = format!("conformance/{}", B::NAME);
     run.family(
         &name,
-        "outer = (routine (24), N, ranks incl. 0 for single ciphertexts, radices 1..4,12,17,backend maximum, dnum x dsize grid, precision k at several residues mod b, extra limbs, noise configuration default / tight (3.2,3.2) / (1,1)); inner = seed families; every cell: exact error (phase under the clear key minus the defined plaintext) is an integer at the declared limb within the bound and not identically zero, digits in range; GLWE/LWE forms: mask and error equal to the sampler model on the same seeds; distinct = outer cases",
+        "outer = (routine (24), N, ranks incl. 0 for single ciphertexts, radices 1..4,12,17,backend maximum, dnum x dsize grid, precision k at several residues mod b, extra limbs, noise configuration default / tight (3.2,3.2) / (1,1)); inner = seed families; every cell: exact error (phase under the clear key minus the defined plaintext) is an integer at the declared limb within the bound and not identically zero, digits in range, no mask column of an object equal to another one (columns of >= 64 bits); GLWE/LWE forms: mask and error equal to the sampler model on the same seeds; distinct = outer cases",
         cs,
         |c, rec| exec_cf::<B>(c, ns, None, rec),
     );
